@@ -208,6 +208,8 @@ def check(prop, tier, seed):
     known = common.known_findings(prop)
     known_classes = {k['class']: k for k in known if k['kind'] == 'finding'}
     new, seen_known = [], {}
+    if result.get('reference'):
+        result['violations'] = list(result['violations']) + list(result.get('disagreements', []))
     for v in result['violations']:
         if v['class'] in known_classes:
             seen_known.setdefault(v['class'], []).append(v)
@@ -226,8 +228,13 @@ def check(prop, tier, seed):
         print(f"VIOLATION property={prop} replay={path}")
         return 1
     if broken:
-        path = common.write_replay(prop, 'broken', {'property': prop, 'tier': tier, 'seed': seed, 'broken': [{'component': c, 'detail': d} for c, d in broken],
-                                                    'note': 'the property is no longer shown to hold: the listed theorem / translator / correspondence component does not check; no failing input was found on the generated cases'})
+        obj = {'property': prop, 'tier': tier, 'seed': seed, 'broken': [{'component': c, 'detail': d} for c, d in broken],
+               'note': 'the property is no longer shown to hold: the listed theorem / translator / correspondence component does not check; no input was found on which the property itself fails'}
+        if result.get('disagreements'):
+            # model and implementation differ on this case (the property's oracle accepts both traces): ./check <id> --replay re-runs it
+            obj['case'] = result['disagreements'][0]['case']
+            obj['disagreement'] = result['disagreements'][0]['detail']
+        path = common.write_replay(prop, 'broken', obj)
         for c, d in broken:
             print(f"BROKEN {c}: {d[:600]}")
         print(f"VIOLATION property={prop} replay={path} no-failing-input-found")
